@@ -12,6 +12,7 @@ package main
 
 import (
 	"bufio"
+	"bytes"
 	"crypto/sha256"
 	"encoding/hex"
 	"encoding/json"
@@ -89,7 +90,7 @@ func (a fArg) lisp(top bool) string {
 	case "i":
 		return a.Int
 	case "s":
-		return fmt.Sprintf("%q", a.Str)
+		return fmt.Sprintf("%q", c15Clip(a.Str))
 	case "y":
 		if strings.HasPrefix(a.Str, ":") {
 			return a.Str
@@ -240,7 +241,7 @@ func (r implResult) String() string {
 	case r.Hang:
 		return "hang (worker killed)"
 	case r.Ok:
-		return fmt.Sprintf("ok %q", r.Text)
+		return fmt.Sprintf("ok %q", c15Clip(r.Text))
 	case r.GoFault:
 		return "err " + r.Class + " [go runtime fault]"
 	}
@@ -300,18 +301,70 @@ func c15Impl(cs fCase) (res implResult) {
 		}
 	case "dest":
 		res = eval("(format nil ctl " + argv + ")")
+		// every other destination kind, summarised relative to the nil destination's text
+		rel := func(r implResult, want string) string {
+			if !r.Ok {
+				if !res.Ok {
+					return "same" // both raise a condition (class not compared)
+				}
+				return "err " + r.Class
+			}
+			if !res.Ok {
+				return fmt.Sprintf("ok (%d bytes) while nil destination raised %s", len(r.Text), res.Class)
+			}
+			if r.Text == want {
+				return "same"
+			}
+			return c15DiffSummary(r.Text, want)
+		}
+		lisp := func(src string) string { return rel(eval(src), res.Text) }
+		gobuf := &bytes.Buffer{}
+		scope.Let(slip.Symbol("gostream"), &slip.OutputStream{Writer: gobuf})
+		var fileRes string
+		if f, err := os.CreateTemp("/var/tmp", "c15-dest-*"); err == nil {
+			scope.Let(slip.Symbol("gofile"), &slip.OutputStream{Writer: f})
+			o := lib.EvalString(scope, "(format gofile ctl "+argv+")")
+			f.Close()
+			b, _ := os.ReadFile(f.Name())
+			os.Remove(f.Name())
+			if o.Ok {
+				fileRes = rel(implResult{Ok: true, Text: string(b)}, res.Text)
+			} else {
+				fileRes = rel(implResult{Class: o.Class}, res.Text)
+			}
+		} else {
+			fileRes = "same"
+		}
 		res.Extra = []string{
-			show(eval("(with-output-to-string (s) (format s ctl " + argv + "))")),
-			show(eval("(let ((s (make-string-output-stream))) (format s ctl " + argv + ") (get-output-stream-string s))")),
-			show(eval("(with-output-to-string (*standard-output*) (format t ctl " + argv + "))")),
-			show(eval("(with-output-to-string (s) (write-string \"pre|\" s) (format s ctl " + argv + "))")),
-			show(func() implResult { // the value returned for a stream destination is nil
+			lisp("(with-output-to-string (s) (format s ctl " + argv + "))"),
+			lisp("(let ((s (make-string-output-stream))) (format s ctl " + argv + ") (get-output-stream-string s))"),
+			lisp("(with-output-to-string (*standard-output*) (format t ctl " + argv + "))"),
+			rel(eval("(with-output-to-string (s) (write-string \"pre|\" s) (format s ctl "+argv+"))"), "pre|"+res.Text),
+			func() string { // the value returned for a stream destination is nil
 				o := lib.EvalString(scope, "(let ((s (make-string-output-stream))) (format s ctl "+argv+"))")
 				if !o.Ok {
-					return implResult{Class: o.Class}
+					if !res.Ok {
+						return "same"
+					}
+					return "err " + o.Class
 				}
-				return implResult{Ok: true, Text: o.Text}
-			}()),
+				if o.Text == "nil" {
+					return "same"
+				}
+				return "value " + o.Text
+			}(),
+			lisp("(let* ((a (make-string-output-stream)) (b (make-string-output-stream)) (bs (make-broadcast-stream a b))) (format bs ctl " + argv + ") (get-output-stream-string a))"),
+			lisp("(let* ((a (make-string-output-stream)) (b (make-string-output-stream)) (bs (make-broadcast-stream a b))) (format bs ctl " + argv + ") (get-output-stream-string b))"),
+			lisp("(let* ((a (make-string-output-stream)) (tw (make-two-way-stream (make-string-input-stream \"\") a))) (format tw ctl " + argv + ") (get-output-stream-string a))"),
+			lisp("(let* ((a (make-string-output-stream)) (ec (make-echo-stream (make-string-input-stream \"\") a))) (format ec ctl " + argv + ") (get-output-stream-string a))"),
+			func() string {
+				o := lib.EvalString(scope, "(format gostream ctl "+argv+")")
+				if !o.Ok {
+					return rel(implResult{Class: o.Class}, res.Text)
+				}
+				return rel(implResult{Ok: true, Text: gobuf.String()}, res.Text)
+			}(),
+			fileRes,
 		}
 	default:
 		res = implResult{Class: "harness-mode"}
@@ -329,6 +382,9 @@ func c15Impl(cs fCase) (res implResult) {
 // exceeds its deadline or the memory cap kills only its worker.
 
 const c15MemCap = 3 << 30
+
+// per-case deadline: generous, the machine is shared; runaway output is stopped by the memory watchdog long before
+const c15Deadline = 150 * time.Second
 
 func c15Worker() {
 	go func() { // memory watchdog: a runaway directive must not exhaust the machine
@@ -348,8 +404,8 @@ func c15Worker() {
 		if len(line) > 1 {
 			var cs fCase
 			if e := json.Unmarshal(line, &cs); e != nil {
-				fmt.Fprintln(os.Stderr, "worker: bad case:", e)
-				os.Exit(2)
+				// a truncated line: the parent went away (it killed or abandoned this worker)
+				os.Exit(0)
 			}
 			res := c15Impl(cs)
 			b, _ := json.Marshal(res)
@@ -389,6 +445,15 @@ func c15RunImpl(cases []fCase, nWorkers int) []implResult {
 		}(lo, hi)
 	}
 	wg.Wait()
+	// a case whose worker was lost is run again on its own in a fresh worker before it counts as a hang
+	// (a neighbour's runaway case, a loaded machine or a killed process must not raise an alarm)
+	for i := range results {
+		if results[i].Hang {
+			for try := 0; try < 2 && results[i].Hang; try++ {
+				c15RunChunk(cases, results, i, i+1)
+			}
+		}
+	}
 	return results
 }
 
@@ -450,7 +515,7 @@ func c15RunChunk(cases []fCase, results []implResult, lo, hi int) {
 					os.Exit(2)
 				}
 				i++
-			case <-time.After(20 * time.Second):
+			case <-time.After(c15Deadline):
 				results[i] = implResult{Hang: true, Class: "deadline"}
 				i++
 				dead = true
@@ -514,6 +579,44 @@ func c15Aspect(cs fCase, impl implResult, model string) string {
 	return "" // both reject; the condition class is C09's business
 }
 
+// c15HasRaw: an argument that exists on the implementation only (no model request possible)
+func c15HasRaw(args []fArg) bool {
+	for _, a := range args {
+		if a.Kind == "raw" || (a.Kind == "l" && c15HasRaw(a.List)) {
+			return true
+		}
+	}
+	return false
+}
+
+// c15Modelled: the case has a model request
+func c15Modelled(cs fCase) bool {
+	return cs.Mode == "fmt" || cs.Mode == "oracle" || (cs.Mode == "dest" && !c15HasRaw(cs.Args))
+}
+
+// c15CaseAspect: the aspect of one case of any mode ("" = agreement). Mode dest is compared with the
+// model (the nil destination's text) AND across the destination kinds.
+func c15CaseAspect(cs fCase, impl implResult, model string) string {
+	switch cs.Mode {
+	case "fmt":
+		return c15Aspect(cs, impl, model)
+	case "dest":
+		if model != "" {
+			if a := c15Aspect(cs, impl, model); a != "" {
+				return a
+			}
+		}
+	}
+	return c15RelationAspect(cs, impl, model)
+}
+
+func c15Clip(s string) string {
+	if len(s) <= 400 {
+		return s
+	}
+	return fmt.Sprintf("%s …[%d bytes]… %s", s[:160], len(s), s[len(s)-160:])
+}
+
 func c15Digest(parts []string) string {
 	h := sha256.Sum256([]byte(strings.Join(parts, "\x00")))
 	return hex.EncodeToString(h[:4])
@@ -534,33 +637,57 @@ func c15Replay(c *lib.Ctx) {
 		impl := c15RunImpl([]fCase{cs}, 1)[0]
 		fmt.Printf("replay %s\n", cs.lisp())
 		bad := false
-		switch cs.Mode {
-		case "fmt":
-			model := c.Model([]string{cs.request()})[0]
-			mt, mok, merr := c15ModelText(model)
-			if mok {
-				fmt.Printf("  expected (model): ok %q\n", mt)
+		model := ""
+		if c15Modelled(cs) {
+			model = c.Model([]string{cs.request()})[0]
+			if mt, mok, merr := c15ModelText(model); mok {
+				fmt.Printf("  expected (model): ok %q\n", c15Clip(mt))
 			} else {
 				fmt.Printf("  expected (model): err %s\n", merr)
 			}
-			fmt.Printf("  observed        : %s %s\n", impl, impl.Msg)
-			bad = c15Aspect(cs, impl, model) != ""
-		default:
-			model := ""
-			if cs.Mode == "oracle" {
-				model = c.Model([]string{cs.request()})[0]
-				fmt.Printf("  expected (oracle): ok %q\n", cs.Expect)
-			}
-			fmt.Printf("  observed        : %s\n", impl)
-			for _, e := range impl.Extra {
-				fmt.Printf("  related         : %s\n", e)
-			}
-			bad = c15RelationAspect(cs, impl, model) != ""
 		}
+		if cs.Mode == "oracle" {
+			fmt.Printf("  expected (oracle): ok %q\n", cs.Expect)
+		}
+		fmt.Printf("  observed        : %s %s\n", impl, impl.Msg)
+		for i, e := range impl.Extra {
+			name := fmt.Sprint("related ", i)
+			if cs.Mode == "dest" && i < len(c15DestNames) {
+				name = c15DestNames[i]
+			}
+			fmt.Printf("  %-28s: %s\n", name, e)
+		}
+		aspect := c15CaseAspect(cs, impl, model)
+		if aspect != "" {
+			fmt.Printf("  disagreement    : %s\n", aspect)
+		}
+		bad = aspect != ""
 		if bad {
 			c.Report("replay", false, map[string]any{"input": cs.lisp()})
 		}
 	}
+}
+
+var c15DestNames = []string{"with-output-to-string", "make-string-output-stream", "t", "appended-to-stream", "stream-destination-value",
+	"broadcast-stream-first", "broadcast-stream-second", "two-way-stream", "echo-stream", "go-writer-stream", "file-stream"}
+
+// c15DiffSummary describes how got differs from want without carrying both (possibly long) texts.
+func c15DiffSummary(got, want string) string {
+	i := 0
+	for i < len(got) && i < len(want) && got[i] == want[i] {
+		i++
+	}
+	clip := func(s string) string {
+		lo, hi := i-12, i+20
+		if lo < 0 {
+			lo = 0
+		}
+		if hi > len(s) {
+			hi = len(s)
+		}
+		return fmt.Sprintf("%q", s[lo:hi])
+	}
+	return fmt.Sprintf("differs: %d bytes instead of %d, first difference at byte %d: got …%s want …%s", len(got), len(want), i, clip(got), clip(want))
 }
 
 // c15RelationAspect checks the implementation-only relations of modes princ and dest.
@@ -588,16 +715,10 @@ func c15RelationAspect(cs fCase, impl implResult, model string) string {
 			return "differs-from-to-string-function"
 		}
 	case "dest":
-		for i, e := range impl.Extra[:3] {
-			if e != self {
-				return []string{"with-output-to-string", "make-string-output-stream", "t"}[i] + "-differs"
+		for i, e := range impl.Extra {
+			if e != "same" {
+				return c15DestNames[i] + "-differs"
 			}
-		}
-		if impl.Ok && impl.Extra[3] != "ok pre|"+impl.Text {
-			return "appended-to-stream-differs"
-		}
-		if impl.Ok && impl.Extra[4] != "ok nil" {
-			return "stream-destination-value"
 		}
 	}
 	return ""
@@ -618,12 +739,14 @@ func runC15(c *lib.Ctx) {
 	avoid := func(prefix string) bool { return c.Findings.Listed("C15", prefix) }
 	sweep := c15SweepCases(c.Thorough())
 	comp := c15CompositeCases(c.Rng, c.Scale(8000, 1200000), avoid)
+	sweep = append(sweep, c15LongDestCases(c.Thorough())...)
+	comp = append(comp, c15CompositeDest(c.Rng, c.Scale(300, 4000), c.Thorough(), avoid)...)
 	cases := append(append([]fCase{}, sweep...), comp...)
 
 	var reqs []string
 	var reqIdx []int
 	for i, cs := range cases {
-		if cs.Mode == "fmt" || cs.Mode == "oracle" {
+		if c15Modelled(cs) {
 			reqs = append(reqs, cs.request())
 			reqIdx = append(reqIdx, i)
 		}
@@ -657,13 +780,26 @@ func runC15(c *lib.Ctx) {
 	for i, cs := range cases {
 		impl := results[i]
 		aspect := ""
+		aspect = c15CaseAspect(cs, impl, replies[i])
 		if cs.Mode == "fmt" {
-			aspect = c15Aspect(cs, impl, replies[i])
 			if _, mok, _ := c15ModelText(replies[i]); !mok {
 				modelRejected++
 			}
-		} else {
-			aspect = c15RelationAspect(cs, impl, replies[i])
+		}
+		if cs.Mode == "dest" {
+			n := len(impl.Text)
+			b := "<1K"
+			switch {
+			case n >= 65536:
+				b = ">=64K"
+			case n >= 16384:
+				b = "16K-64K"
+			case n >= 4096:
+				b = "4K-16K"
+			case n >= 1024:
+				b = "1K-4K"
+			}
+			c.Ev.Hist("dest_output_bytes", b)
 		}
 		nontrivial := strings.ContainsAny(cs.Ctrl, ":@,#v'0123456789") || strings.Count(cs.Ctrl, "~") >= 2
 		c.Ev.Case(cs.Ctrl+"\x00"+fmt.Sprint(cs.Args), nontrivial)
@@ -696,14 +832,18 @@ func runC15(c *lib.Ctx) {
 			continue
 		}
 		expected := replies[i]
-		if t, ok, _ := c15ModelText(orOkEmpty(replies[i])); ok && cs.Mode == "fmt" {
-			expected = fmt.Sprintf("ok %q", t)
+		if t, ok, _ := c15ModelText(orOkEmpty(replies[i])); ok && (cs.Mode == "fmt" || cs.Mode == "dest") {
+			expected = fmt.Sprintf("ok %q", c15Clip(t))
 		}
 		rec := map[string]any{"input": cs.lisp(), "cases": []fCase{cs}, "observed": impl.String(), "observed_related": impl.Extra,
 			"expected": expected, "expected_from": "model:fmt.run", "relies_on": []string{"SlipVerif.Theorems.C15"}}
 		if cs.Mode == "oracle" {
 			rec["expected"] = fmt.Sprintf("ok %q", cs.Expect)
 			rec["expected_from"] = "independent Go oracle for English / Roman numerals"
+		} else if cs.Mode == "dest" {
+			rec["expected"] = "nil destination: " + expected + "; every other destination kind receives the same text"
+			rec["expected_from"] = "model:fmt.run + property statement (destination independence; Theorems.C15.dest_independent)"
+			rec["destinations"] = c15DestNames
 		} else if cs.Mode != "fmt" {
 			rec["expected"] = "the related observations equal the (format nil …) text"
 			rec["expected_from"] = "property statement (~A = princ, ~S = prin1, destination independence)"
@@ -780,7 +920,7 @@ func runC15(c *lib.Ctx) {
 // c15Shrink removes top-level units (with their arguments) while the case still disagrees.
 func c15Shrink(c *lib.Ctx, cs fCase) fCase {
 	build := func(units []fUnit) fCase {
-		out := fCase{Mode: "fmt", Units: units}
+		out := fCase{Mode: cs.Mode, Units: units}
 		for _, u := range units {
 			out.Ctrl += u.Ctrl
 			out.Args = append(out.Args, u.Args...)
@@ -801,7 +941,7 @@ func c15Shrink(c *lib.Ctx, cs fCase) fCase {
 				continue // keep the witness inside the legal inputs
 			}
 			impl := c15RunImpl([]fCase{cc}, 1)[0]
-			if c15Aspect(cc, impl, model) != "" {
+			if c15CaseAspect(cc, impl, model) != "" {
 				cur, changed = cand, true
 				break
 			}
